@@ -362,11 +362,18 @@ TOL_OK = Fraction(1, 10 ** 9)
 TOL_BAD = Fraction(1, 10 ** 6)
 
 
+# below the smallest normal double: a folded constant that underflows to 0.0 is
+# floating-point rounding, not a change of value
+TINY = Fraction(1, 10 ** 290)
+
+
 def close(v1, s1, v2, s2):
     """-> 'eq' | 'round' | 'indet' | 'diff'"""
     if v1 == v2:
         return "eq"
     d = abs(v1 - v2)
+    if d < TINY:
+        return "round"
     s = max(s1, s2, abs(v1), abs(v2))
     if d <= TOL_OK * s:
         return "round"
@@ -445,7 +452,7 @@ def eq_truth(root, env):
     l, sl = ev(root.left, env)
     r, sr = ev(root.right, env)
     d = abs(l - r)
-    if d == 0:
+    if d == 0 or d < TINY:
         return True, False
     mag = max(abs(l), abs(r))
     if d <= TOL_OK * mag:
